@@ -902,6 +902,7 @@ func (in *Interp) callBuiltin(fr *frame, fn *ssa.Builtin, args []Value) Value {
 	case "close":
 		ch := args[0].(*Chan)
 		if in.sc != nil && in.sc.enabled {
+			in.schedPoint(fr)
 			in.gClose(fr, ch)
 			return nil
 		}
